@@ -226,6 +226,7 @@ def run(ctx, chk):
                            '%s applied to a Context: its Drop notification would never run' % nm)
     # ---- N3 manager loop table
     rows = {}
+    late_waits = {}
     pushes = spawns = 0
     for p in paths:
         calls = [ef for ef in p.effects if ef['kind'] == 'call' and not ef['tracing']]
@@ -251,6 +252,21 @@ def run(ctx, chk):
             for ef in calls[ri + 1:]))
         rows.setdefault(cls, set()).add(('broadcast' if did_bc else 'no-broadcast', 'leave' if left else 'stay',
                                          'join' if 'join' in after or p.kind == 'return' else 'no-join'))
+        # once the manager has told everybody to stop, the only thing it waits for is the threads themselves: another wait on
+        # a mailbox (a `recv`, or the blocking iterator of a Receiver whose sender the manager itself still holds) never ends
+        if did_bc:
+            bi = max([k for k, ef in enumerate(calls) if k > ri and ((bcb is not None and ef['callee'] == bcb.path) or
+                      (ef['args'] and ef['args'][-1][0] == 'agg' and ef['args'][-1][2] == 'ThreadAbort'))] or [ri])
+            for ef in calls[bi + 1:]:
+                nm_ = ef['callee']
+                waits = (nm_.endswith(('Receiver::<T>::recv', 'Receiver::<T>::recv_timeout', 'Receiver::<T>::recv_deadline')) or
+                         ('mpsc::' in nm_ and nm_.endswith('::next') and ('Iter<' in nm_ or 'IntoIter<' in nm_) and 'TryIter<' not in nm_) or
+                         nm_.endswith(('thread::park', 'Condvar::wait', 'Barrier::wait')))
+                if waits:
+                    late_waits.setdefault(ef['site'][2], nm_)
+    chk.ob('C15.N3', 'manager:after-the-broadcast-only-joins-block', not late_waits, tmb.where(0),
+           'after broadcasting ThreadAbort the manager %s' % ('waits for nothing but the joins' if not late_waits else
+           'waits again on a mailbox: %s -- with every worker gone and its own sender alive this never returns' % sorted(late_waits.items())[:2]))
     for cls in ('ThreadTerminate', 'ThreadPanic', 'recv-error'):
         got = rows.get(cls)
         chk.ob('C15.N3', 'manager:%s' % cls, got is not None and all(r[0] == 'broadcast' and r[1] == 'leave' for r in got), tmb.where(0),
